@@ -15,11 +15,19 @@ def main():
     seed = int(os.environ.get('VERIF_SEED', '20260930'))
     tier = a.tier if a.tier in ('quick', 'thorough') else 'quick'
     res = core.Result(prop, tier, seed)
-    P, notes = params.run()
-    for n in notes:
-        res.note('translator: ' + n)
-    res.extra['params'] = {k: v for k, v in P.items() if k not in ('tables', 'decl')}
-    mod = importlib.import_module('props.' + prop.lower())
+    try:
+        P, notes = params.run()
+        for n in notes:
+            res.note('translator: ' + n)
+        res.extra['params'] = {k: v for k, v in P.items() if k not in ('tables', 'decl')}
+        mod = importlib.import_module('props.' + prop.lower())
+    except Exception:
+        # the translator or the check's own module cannot even be loaded: never silence, never a pass
+        import traceback
+        tb = traceback.format_exc()
+        print(tb, file=sys.stderr)
+        res.corr['model_disagreements'].append({'what': 'internal error of the check before it could run (translator or check module failed to load; the property is not shown to hold)', 'traceback': tb[-3000:]})
+        sys.exit(core.finish(res, 'exploration', {}, [], False))
     ctx = {'params': P}
     if a.replay:
         rp = json.load(open(a.replay))
